@@ -129,7 +129,7 @@ def _case(draw):
     if entry == "parquet":
         cols = ["s", draw(_text)] if draw(st.booleans()) else ["l", [["s", s] for s in draw(st.lists(_text, max_size=2))]]
         return {"entry": entry, "v": ["t", [["s", draw(_text)], cols]]}
-    return {"entry": entry, "v": draw(st.one_of(_scalars, _scalars, _scalars, _values))}
+    return {"entry": entry, "v": draw(st.one_of(_scalars, _scalars, _scalars, _values)), "subclass": draw(st.integers(0, 5)) == 0}
 
 
 def strategy(tier):
@@ -160,6 +160,15 @@ def _nontrivial(v) -> bool:
 
 
 _SCALARS = (str, int, float, bool, complex, bytes)
+
+
+class _StrSub(str):
+    def __str__(self):
+        return "<text form of " + str.__str__(self) + ">"
+
+
+class _FloatSub(float):
+    pass
 
 _CAPTURE_SRC = '''
 G = None
@@ -221,7 +230,13 @@ def check(case) -> Result:
             want_cols = [cols] if isinstance(cols, str) else cols
             err = lit(q.args[1], want_cols, "AsParquetFiles columns") or lit(q.args[2], fn, "AsParquetFiles filename")
         else:
-            scalar = isinstance(v, _SCALARS)
+            if case.get("subclass"):
+                # the value is an instance of a SUBCLASS of str (with a text form of its own, like a (str, Enum) member) or of float:
+                # a float is embedded as the plain number; a str subclass is not a literal anybody can write (refused)
+                v = _StrSub(v) if isinstance(v, str) else (_FloatSub(v) if isinstance(v, float) else v)
+                r.labels.append("value-of-a-subclass-type")
+            scalar = type(v) in _SCALARS or isinstance(v, _FloatSub)
+            want_v = float(v) if isinstance(v, _FloatSub) else v
             try:
                 if entry == "default":
                     class Evt:
@@ -254,9 +269,9 @@ def check(case) -> Result:
                 return r
             if not scalar:
                 return r.fail(f"{entry}: non-transportable {type(v).__name__} value {v!r} was emitted inside a lambda as {ast.dump(node)[:120]}")
-            err = lit(node, v, entry)
+            err = lit(node, want_v, entry)
             for c in ast.walk(lam):
-                if isinstance(c, ast.Constant) and not isinstance(c.value, _SCALARS):
+                if isinstance(c, ast.Constant) and type(c.value) not in _SCALARS:
                     err = err or f"{entry}: emitted lambda contains a constant of type {type(c.value).__name__}"
     except Exception as e:
         return r.fail(f"{entry}: embedding {v!r} raised {type(e).__name__}: {e}")
